@@ -39,7 +39,8 @@ pub open spec fn wm_body_ok(start: u16, count: u16, tail_ok: spec_fn(Seq<u8>) ->
 }
 impl Serialize for WriteMultiple<bool> {
     open spec fn ser_pre(&self) -> bool { self.wf() }
-    open spec fn ser_ok(&self, out: Seq<u8>) -> bool { wm_body_ok(self.range.start, self.range.count, |t: Seq<u8>| bools_body_ok(self.values@, t), out) }
+    // [C03] ... and more than 1968 coils are never serialized
+    open spec fn ser_ok(&self, out: Seq<u8>) -> bool { self.range.count <= 1968 && wm_body_ok(self.range.start, self.range.count, |t: Seq<u8>| bools_body_ok(self.values@, t), out) }
     open spec fn ser_exc(&self, e: ExceptionCode) -> bool { false }
     open spec fn ser_may_reject(&self) -> bool { true }
 // [C03] more than 1968 coils are never serialized
@@ -49,7 +50,8 @@ impl Serialize for WriteMultiple<bool> {
 }
 impl Serialize for WriteMultiple<u16> {
     open spec fn ser_pre(&self) -> bool { self.wf() }
-    open spec fn ser_ok(&self, out: Seq<u8>) -> bool { wm_body_ok(self.range.start, self.range.count, |t: Seq<u8>| regs_body_ok(self.values@, t), out) }
+    // [C03] ... and more than 123 registers are never serialized
+    open spec fn ser_ok(&self, out: Seq<u8>) -> bool { self.range.count <= 123 && wm_body_ok(self.range.start, self.range.count, |t: Seq<u8>| regs_body_ok(self.values@, t), out) }
     open spec fn ser_exc(&self, e: ExceptionCode) -> bool { false }
     open spec fn ser_may_reject(&self) -> bool { true }
 // [C03] more than 123 registers are never serialized
